@@ -241,18 +241,30 @@ pub fn delivered_changes(out: &RunOutput) -> Vec<(String, u64)> {
         .collect()
 }
 
-pub fn check_c04(_plan: &Plan, out: &RunOutput) -> Option<Violation> {
+pub fn check_c04(plan: &Plan, out: &RunOutput) -> Option<Violation> {
     if let Some(v) = panic_violation("C04", out) {
         return Some(v);
     }
     if !matches!(out.connect, ConnectOutcome::Ok(_)) {
+        if !plan.fault_free() && !out.faults_fired.is_empty() {
+            return None; // the fault landed in the handshake
+        }
         return Some(Violation::new(
             "C04",
             "connect",
             format!("connect failed on a fault-free session: {:?}", out.connect),
         ));
     }
-    let written = written_changes(out);
+    // Under an injected fault only the idle replies the client endpoint read completely (and
+    // intact) count: reading the last byte of a reply and returning it happen in one poll of the
+    // run loop, so such a reply has been handed to the loop, whatever fails afterwards.
+    let mut written = written_changes(out);
+    if !plan.fault_free() {
+        written.retain(|w| {
+            let r = &out.responses[w.2];
+            r.intact && r.fully_read_seq.is_some()
+        });
+    }
     let delivered = delivered_changes(out);
     let wn: Vec<&str> = written.iter().map(|w| w.0.as_str()).collect();
     let dn: Vec<&str> = delivered.iter().map(|d| d.0.as_str()).collect();
@@ -274,7 +286,7 @@ pub fn check_c04(_plan: &Plan, out: &RunOutput) -> Option<Violation> {
     if i == wn.len() && i == dn.len() {
         return None;
     }
-    let all_read = out.s2c_read >= out.s2c.len();
+    let all_read = out.s2c_read >= out.s2c.len() || !plan.fault_free();
     if i == dn.len() {
         // delivered is a strict prefix: the tail is lost (or still in flight)
         if !all_read {
@@ -505,7 +517,7 @@ pub fn check_c08(plan: &Plan, out: &RunOutput) -> Option<Violation> {
             if let OpResult::Art(a) = &op.result {
                 let pic = plan.pictures.iter().find(|p| Some(&p.uri) == op.uri.as_ref());
                 if let Some(pic) = pic {
-                    if !art_matches(&expect_art(pic), &OpResult::Art(a.clone())) {
+                    if !art_matches(&expect_art(pic, plan.binary_limit), &OpResult::Art(a.clone())) {
                         return Some(Violation::new(
                             "C08",
                             "R2_wrong_data_after_fault",
@@ -732,6 +744,7 @@ pub fn check_c08(plan: &Plan, out: &RunOutput) -> Option<Violation> {
                                 .iter()
                                 .find(|r| r.kind == RespKind::Unit(u.index))
                         })
+                        .filter(|r| r.intact)
                         .and_then(|r| r.fully_read_seq)
                         .map(|s| s < observed_seq)
                         .unwrap_or(false)
@@ -808,7 +821,26 @@ pub enum ArtExpect {
 }
 
 /// 20-line reference: what loading album art must return for a stored picture.
-pub fn expect_art(pic: &Picture) -> ArtExpect {
+pub fn expect_art(pic: &Picture, limit: usize) -> ArtExpect {
+    match expect_art_first(pic) {
+        ArtExpect::Some(b, m) => {
+            // a later chunk request may fail: the first continuation offset at or above the
+            // threshold (continuations are asked for at multiples of the chunk limit below size)
+            if let Some((threshold, code)) = pic.later_error {
+                let limit = limit.max(1) as u64;
+                let t = threshold.max(1);
+                let off = t.div_ceil(limit) * limit;
+                if off < b.len() as u64 {
+                    return ArtExpect::Err(code);
+                }
+            }
+            ArtExpect::Some(b, m)
+        }
+        other => other,
+    }
+}
+
+fn expect_art_first(pic: &Picture) -> ArtExpect {
     let fallback = |pic: &Picture| -> ArtExpect {
         if let Some(c) = pic.albumart_error {
             return ArtExpect::Err(c);
@@ -874,7 +906,7 @@ pub fn check_c17(plan: &Plan, out: &RunOutput) -> Option<Violation> {
                 format!("album_art({:?}) did not finish", uri),
             ));
         }
-        let exp = expect_art(pic);
+        let exp = expect_art(pic, plan.binary_limit);
         if !art_matches(&exp, &op.result) {
             let clause = match (&exp, &op.result) {
                 (ArtExpect::Some(..), OpResult::Art(Some(_))) => "bytes_or_mime_differ",
